@@ -203,11 +203,37 @@ def assembly_overrides(st, ctx, orc):
         return some(ItOwned([Str(e) for e in v])) if v is not None else none()
     def parser_new(it, args, callee):
         return Opaque("Parser")
-    return {"Parser::convert": convert, "Parser::convert_into": convert_into, "Parser::new_phonetic": parser_new, "Parser::new_regex": parser_new,
-            "PhoneticSuggestion::include_from_dictionary": include_from_dictionary,
-            "Data::find_suffix": find_suffix, "Data::search_corrected": search_corrected,
-            "Data::get_emoji_by_emoticon": emoticon, "Data::get_emoji_by_name": emoji_by_name,
-            "Data::get_emoji_by_bengali": emoji_by_name}
+
+    # The oracles sit at the boundary of the crate: the bundled tables (hash maps filled by serde) and the emojicon crate. `Data`'s own
+    # accessor functions run from MIR, so that a change inside them (another key, another order of look-ups) is executed, not replaced.
+    def map_oracle(fn2):
+        def oracle(it2, m, key):
+            o = fn2(it2, [None, Str(list(key))], "oracle")
+            return SString(list(o.fields[0].elems)) if o.variant == 1 else None
+        return oracle
+    ctx["data_oracles"] = dict(suffix=map_oracle(find_suffix), autocorrect=map_oracle(search_corrected))
+    ov = {"Parser::convert": convert, "Parser::convert_into": convert_into, "Parser::new_phonetic": parser_new, "Parser::new_regex": parser_new,
+          "PhoneticSuggestion::include_from_dictionary": include_from_dictionary,
+          "Emojicon::get_by_emoticon": emoticon, "Emojicon::get_by_name": emoji_by_name, "BengaliEmoji::get": emoji_by_name}
+    if not (set(("suffix", "autocorrect", "emojicon", "bengali_emoji")) <= set(prog.structs.get("Data") or [])):
+        # another representation of `Data`: fall back to its accessors as the cut points
+        ov.update({"Data::find_suffix": find_suffix, "Data::search_corrected": search_corrected, "Data::get_emoji_by_emoticon": emoticon,
+                   "Data::get_emoji_by_name": emoji_by_name, "Data::get_emoji_by_bengali": emoji_by_name})
+    # for the harness itself (fixing table answers up front)
+    ctx["ask"] = {"emoticon": emoticon, "emoji_name": emoji_by_name, "suffix": find_suffix}
+    return ov
+
+
+def mk_assembly_data(prog, st, ctx):
+    """`Data` with its tables as oracle-backed maps (see assembly_overrides)."""
+    from fixedlib import mk_data
+    d = mk_data(prog, st)
+    order = prog.structs.get("Data") or []
+    orcs = ctx.get("data_oracles")
+    if isinstance(d, Agg) and orcs and set(("suffix", "autocorrect", "emojicon", "bengali_emoji")) <= set(order):
+        d.fields[order.index("suffix")] = SMap("suffix", [], orcs["suffix"])
+        d.fields[order.index("autocorrect")] = SMap("autocorrect", [], orcs["autocorrect"])
+    return d
 
 
 def user_ac_oracle(orc, shape):
@@ -229,9 +255,8 @@ def rank_text(r):
 def run_suggest(it, st, ctx, ps, term, selections, cfg):
     prog = it.p
     fn = prog.find_fn("PhoneticSuggestion", "suggest")
-    from fixedlib import mk_data
     if "data" not in ctx:
-        ctx["data"] = mk_data(prog, st)
+        ctx["data"] = mk_assembly_data(prog, st, ctx)
     ret = it.call_function(fn, [Ref([ps], 0, True), Str(term), Ref([ctx["data"]], 0), Ref([selections], 0, True), Ref([cfg], 0)])
     return ret.fields[0], ret.fields[1]
 
@@ -457,9 +482,10 @@ def make_suggest(shape):
             word = None
             term = [ord(c) for c in shape["term"]]
         else:
-            word = [st.sym_char("w%d" % i, 0x30, 0x7a) for i in range(wlen)]
-            for c in word:
-                st.assume(zin(c, ALNUM))
+            word = [st.sym_char("w%d" % i, 0x2d if shape.get("inner_marks") else 0x30, 0x7a) for i in range(wlen)]
+            for i, c in enumerate(word):
+                # inside a word a hyphen or an underscore is part of the word (emoji names such as `t-rex`)
+                st.assume(zin(c, ALNUM + ([0x2d, 0x5f] if shape.get("inner_marks") and 0 < i < wlen - 1 else [])))
             term = pre + word + trail
         # memo pre-state: every proper prefix of the word was the word earlier (stack discipline of the typed text)
         cache_entries = []
@@ -507,12 +533,16 @@ def make_suggest(shape):
         selections = SMap("selections", [], sel_oracle)
         ctx.update(word=word, term=term, ps=ps, cfg=cfg, opts=opts, selections=selections, base_items=base_items, cache=cache, pre=pre, trail=trail)
         st.ctx = ctx
+        if word is not None and wlen > 2 and shape.get("suffixes", True) and mode in ("single", "suffix_pair"):
+            # the table's answers for the tails of the word exactly as typed are fixed up front: the clauses speak about them whatever key the
+            # code asks the table for
+            for i in range(1, wlen):
+                ctx["ask"]["suffix"](it, [None, Str(list(word[i:]))], "pre")
         if shape.get("preconsult_emoji"):
             # fix the table answers for the whole text and for the word part up front: the clauses then speak about both, whichever the code asks first
-            ov = it.env["overrides"]
-            ov["Data::get_emoji_by_emoticon"](it, [None, Str(term)], "pre")
+            ctx["ask"]["emoticon"](it, [None, Str(term)], "pre")
             if word is not None and len(word) > 0:
-                ov["Data::get_emoji_by_name"](it, [None, Str(word)], "pre")
+                ctx["ask"]["emoji_name"](it, [None, Str(word)], "pre")
 
         def run():
             res = {}
@@ -794,6 +824,36 @@ def suggest_clauses(st, it, c, res, mode):
                                                  simp(bv(num(x), 8) == bv(num(base), 8))))
                 clauses.append(("cover:suffix_join", z3.Not(silent)))
         clauses.append(("suffix_forms_complete", z3.And(complete) if complete else True))
+        # ... and justified: every auto-correct / dictionary-class candidate is the word's own auto-correct entry, one of its own dictionary
+        # words, or a memoised candidate of a proper prefix joined to the form of the remaining part - that part being a suffix the table knows
+        planted_own = any(len(k) == len(word) and all((a is b) or (not is_sym(a) and not is_sym(b) and a == b) for a, b in zip(k, word)) for k, _ in c["cache0"].entries)
+        if mode == "single" and not planted_own:
+            srcs = []
+            for w2, d2 in own_hits:
+                srcs.append((z3.BoolVal(True), list(w2)))
+            for nm in ("user_autocorrect", "autocorrect"):
+                en = orc.memo.get((nm, key_of_elems(word)))
+                if en is not None:
+                    ce = orc.memo.get(("conv", key_of_elems(en)))
+                    if ce is not None:
+                        srcs.append((z3.BoolVal(True), list(ce)))
+            for i in range(1, len(word)):
+                sfx = orc.memo.get(("suffix", key_of_elems(word[i:])))
+                if sfx is None or len(sfx) == 0:
+                    continue
+                for base in c["base_items"].get(i, []):
+                    if len(rank_text(base)) == 0:
+                        continue
+                    silent, cases = ref_join(rank_text(base), sfx)
+                    for cond, joined in cases:
+                        srcs.append((z3.Or(silent, cond), joined))
+            just2 = []
+            for i2, x in enumerate(items):
+                if cls(x) not in (V["First"], V["Other"]):
+                    continue
+                alts = [z3.And(cnd, z3.If(quote, seq_eq(texts[i2], qpre_on + t_ + qtrail_on), seq_eq(texts[i2], cpre + t_ + ctrail))) for cnd, t_ in srcs]
+                just2.append(z3.Or(alts) if alts else z3.BoolVal(False))
+            clauses.append(("candidates_are_justified", z3.And(just2) if just2 else True))
         # a suffix-built word inherits the distance of its base, a dictionary word carries its own: the number the sort sees is that distance
         carry = []
         for i2, alts in just.items():
@@ -871,6 +931,8 @@ def suggest_clauses(st, it, c, res, mode):
         t2 = [rank_text(x) for x in lst2.items]
         t3 = [rank_text(x) for x in lst3.items]
         same = z3.And([seq_eq(a, b) for a, b in zip(t2, t3)]) if len(t2) == len(t3) else z3.BoolVal(False)
+        clauses.append(("preselection_inside_list", z3.ULT(bv(sel2, 64), len(lst2.items)) if is_sym(sel2) else sel2 < len(lst2.items)))
+        clauses.append(("list_not_empty", len(lst2.items) >= 1))
         clauses.append(("reconfigured_context_gives_the_list_of_a_new_one", same))
         clauses.append(("reconfigured_context_gives_the_preselection_of_a_new_one", simp(bv(sel2, 64) == bv(sel3, 64))))
         ansi2 = zb(c["opts2"]["ansi"])
@@ -1470,6 +1532,53 @@ def suffix_rank_search(vs):
     return None
 
 
+def unjustified_search(vs):
+    """Native: words whose tail is NOT a key of suffix.json although something close to it is (another letter case), typed key by key: every
+    dictionary-class candidate must be a memoised candidate of the word itself, or a memoised candidate of a prefix joined to the form of a
+    tail that is a key of the table exactly as typed."""
+    keys = char_keys()
+    data = bundled_data()
+    cfg = {"layout": "avro_phonetic", "database": REPO + "/data", "opts": {"phonetic_suggestion": True}}
+    bases = ["manush", "boi", "desh", "kolom"]
+    tails = []
+    for sk in list(data["suffix"])[:200]:
+        for j, ch in enumerate(sk):
+            if ch.isalpha() and ch.islower():
+                t = sk[:j] + ch.upper() + sk[j + 1:]
+                if t not in data["suffix"] and all(c2 in keys for c2 in t):
+                    tails.append(t)
+                    break
+    tails = list(dict.fromkeys(tails))[:120]
+    scs, meta = [], []
+    for b2 in bases:
+        for t in tails:
+            scs.append({"steps": [{"op": "new", "config": cfg}] + [{"op": "key", "key": keys[ch], "sel": 0} for ch in b2 + t] + [{"op": "get_state"}]})
+            meta.append((b2, t))
+    for (b2, t), sc, r in zip(meta, scs, run_replay_parallel(scs, timeout=1800)):
+        rr = r["results"]
+        if any("panic" in x for x in rr):
+            continue
+        state = rr[-1].get("state", {})
+        w = b2 + t
+        cache = state.get("cache", {})
+        own = set(x[1] for x in cache.get(w, []))
+        ok_texts = set(own)
+        for i in range(1, len(w)):
+            sv = data["suffix"].get(w[i:])
+            if sv is None:
+                continue
+            for kind, text, n in cache.get(w[:i], []):
+                j = join_concrete(text, sv) if text else None
+                if j is not None:
+                    ok_texts.add(j)
+        for kind, text, n in state.get("suggestions", []):
+            if kind in (0, 2) and text not in ok_texts:
+                return sc, rr[-2], ("typed %r: the candidate %r is neither one of the word's own auto-correct / dictionary candidates %s nor a candidate of a prefix joined to the "
+                                    "form of a tail that suffix.json lists (tails of this word in the table: %s)" % (
+                                        w, text, sorted(own)[:4], [w[i:] for i in range(1, len(w)) if w[i:] in data["suffix"]])), "a candidate that nothing justifies"
+    return None
+
+
 def obl_suffix(check, conv_table, thorough=False, budget_s=None):
     kw = dict(mode="single", dict_max=1, emoji_names=False, emoticons=False, autocorrect=False, user_autocorrect=False, selections=False,
               fixed={"include_english": False, "ansi": False}, dist_mode="fixed", distinct=True)
@@ -1488,7 +1597,7 @@ def obl_suffix(check, conv_table, thorough=False, budget_s=None):
     run_suggest_obligation(check, "assembly_suffix", shapes, ["cover:suffix_join"], budget_s=budget_s,
                            confirmers={"suffix_forms_complete": suffix_search, "memo_entry_holds_direct_candidates_only": stacked_suffix_search,
                                        "memo_entry_is_keyed_by_the_word": warm_search, "dictionary_candidates_carry_their_distance": suffix_rank_search,
-                                       "candidates_of_the_base_come_back_joined": suffix_search})
+                                       "candidates_of_the_base_come_back_joined": suffix_search, "candidates_are_justified": unjustified_search})
 
 
 def emoji_search(vs):
@@ -1567,6 +1676,8 @@ def obl_emoji(check, conv_table, thorough=False, budget_s=None):
               preconsult_emoji=True)
     shapes = base_shapes((WRAPPERS_QUICK + [("", ",,"), (",,", "")]) if thorough else (WRAPPERS_QUICK[:6] + [("", ",,")]), [1, 2] if thorough else [1], conv_table, **kw)
     shapes += special_term_shapes(SPECIAL_TERMS + [":`)", "(:`)", ":`:`", "a:`", "`", "``"], **dict(kw, preconsult_emoji=False))
+    # names with a hyphen or an underscore inside (`t-rex`): the middle character of a three-character word ranges over them too
+    shapes += base_shapes([("", "")], [3], conv_table, **dict(kw, inner_marks=True, emoticons=False, dict_max=0, fixed={"smart_quote": False, "include_english": False}))
     check.bounds["assembly_emoji"] = dict(word="1%s symbolic letters/digits" % ("-2" if thorough else ""), wrappers=[s["pre"] + "W" + s["trail"] for s in shapes][:12],
                                           data="emoticon for the whole text present or absent; emoji name with 2 distinct emoji present or absent; 0-1 dictionary word",
                                           options="English, ANSI, smart quotes symbolic")
@@ -1659,13 +1770,17 @@ def reconfig_search(vs):
         i = idx if idx >= 0 else len(lst) - 1
         if not lst or i >= len(lst) or i < 0:
             continue
-        st2 = steps + [{"op": "commit", "ctx": 0, "index": i}, {"op": "update", "ctx": 0, "config": cfg(b)}] + [{"op": "key", "ctx": 0, "key": keys[ch], "sel": 0} for ch in w]
+        again = [{"op": "key", "ctx": 0, "key": keys[ch], "sel": 0} for ch in w]
+        st2 = steps + [{"op": "commit", "ctx": 0, "index": i}] + again + [{"op": "finish", "ctx": 0}, {"op": "update", "ctx": 0, "config": cfg(b)}] + again
         l2.append(({"steps": st2}, w, i, lst[i]))
     for (sc, w, i, cand), r in zip(l2, run_replay_parallel([x[0] for x in l2])):
         rr = r["results"]
         if any("panic" in x for x in rr):
             continue
         got = rr[-1].get("suggestion", {})
+        if got.get("kind") == "full" and (got.get("len", 0) == 0 or got.get("sel", 0) >= got.get("len", 0)):
+            return sc, rr[-1], ("%r typed with ANSI off, candidate %d (%r) committed, ANSI switched on by update_engine (idle, same layout), %r typed again: %d candidates, "
+                                "previously-selected index %d" % (w, i, cand, w, got.get("len", 0), got.get("sel", 0))), "preselection outside the list after an option change"
         bad = [t for t in got.get("list", []) if t in all_emoji or t == w]
         if bad:
             return sc, rr[-1], ("%r typed with ANSI off, candidate %d (%r) committed, ANSI switched on by update_engine (idle, same layout), %r typed again: the list %s offers %r, "
@@ -1727,7 +1842,8 @@ def obl_reconfig(check, conv_table, thorough=False, budget_s=None):
                                            data="0-1 dictionary word, emoji name / emoticon / learned selection present or absent")
     run_suggest_obligation(check, "reconfiguration", shapes, ["cover:reconfigured"], budget_s=budget_s,
                            confirmers={"reconfigured_context_gives_the_list_of_a_new_one": reconfig_search, "reconfigured_context_gives_the_preselection_of_a_new_one": reconfig_search,
-                                       "ansi_offers_no_emoji_or_raw_text": reconfig_search, "ansi_offers_nothing_it_cannot_encode": reconfig_search})
+                                       "ansi_offers_no_emoji_or_raw_text": reconfig_search, "ansi_offers_nothing_it_cannot_encode": reconfig_search,
+                                       "preselection_inside_list": reconfig_search, "list_not_empty": reconfig_search})
 
 
 def obl_warm(check, conv_table, thorough=False, budget_s=None):
@@ -1785,7 +1901,8 @@ def make_only_phonetic(shape):
         s = [st.sym_char("s%d" % i, 0x21, 0x7e) for i in range(n)]
         for c in s:
             st.assume(zin(c, ALNUM + CL.META27))
-        ps = mk_phonetic_suggestion(prog, [], pbuffer=orc.sym_string("pbuf", 1, 0x20, 0x9FF))
+        # the object holds the user's auto-correct list (any entries) and whatever an earlier word left in its buffers: none of it may show
+        ps = mk_phonetic_suggestion(prog, [], pbuffer=orc.sym_string("pbuf", 1, 0x20, 0x9FF), user_autocorrect=SMap("user_autocorrect", [], user_ac_oracle(orc, {})))
         st.ctx = dict(s=s, orc=orc)
         fn = prog.find_fn("PhoneticSuggestion", "suggest_only_phonetic")
 
@@ -1870,6 +1987,25 @@ def only_phonetic_history_search():
         if "panic" in last or got != want:
             hist = ", ".join("%r with the list %s" % (w, "on" if on else "off") for on, w in h) or "nothing"
             return (sc, last, "one context composed %s; then, suggestions off, typed %r gives %r; the conversion of its three parts %s is %r" % (hist, t, got, parts_of[t], want))
+    # the user's auto-correct list (present at start-up, or picked up by a re-configuration) has no say with suggestions off
+    uac = json.dumps({"k": "kotha", "kot": "ami", "ami": "tumi"})
+    scs2, meta2 = [], []
+    for t in ("k", "kot", "ami", "(k)", "ami."):
+        for late in (False, True):
+            steps = ([{"op": "new", "config": cfg(False)}, {"op": "write_user_file", "name": "autocorrect.json", "content": uac, "mtime_plus": 5}, {"op": "update", "config": cfg(False)}] if late
+                     else [{"op": "write_user_file", "name": "autocorrect.json", "content": uac}, {"op": "new", "config": cfg(False)}])
+            steps += [{"op": "key", "key": keys[ch], "sel": 0} for ch in t] + [{"op": "split", "text": t, "colon": False}]
+            scs2.append({"steps": steps})
+            meta2.append((t, late))
+    for (t, late), sc, r in zip(meta2, scs2, run_replay_parallel(scs2)):
+        rr = r["results"]
+        parts = rr[-1].get("parts", [])
+        conv = run_replay([{"steps": [{"op": "okkhor", "text": p} for p in parts]}])[0]["results"]
+        want = "".join(x.get("text", "") for x in conv)
+        got = rr[-2].get("suggestion", {}).get("text")
+        if "panic" in rr[-2] or got != want:
+            return (sc, rr[-2], "user auto-correct file %s (%s), suggestions off: typed %r gives %r; the conversion of its three parts %s is %r" % (
+                uac, "loaded by update_engine" if late else "present at start-up", t, got, parts, want))
     return None
 
 
@@ -2153,10 +2289,17 @@ def make_fixed_assembly(shape):
                                 continue
                         ext = orc.sym_string("fdw", 1, BENGALI_LO, 0x09DF)
                         w = list(word) + ext
-                        for w2, _ in items:
+                        # ... except that a table may list a word twice in a row (the bundled dictionary does, once: the code's dedup() of
+                        # neighbours is what keeps the list free of repeats)
+                        for w2, _ in items[:-1]:
                             if len(w2) == len(w):
                                 st.assume(z3.Not(seq_eq(w2, w)))
-                        items.append((w, st.sym_bv(orc.fresh("fdd"), 8) if shape.get("dist_mode", "symbolic") == "symbolic" else 10 * (i + 1)))
+                        dnew = st.sym_bv(orc.fresh("fdd"), 8) if shape.get("dist_mode", "symbolic") == "symbolic" else 10 * (i + 1)
+                        if items and len(items[-1][0]) == len(w) and is_sym(dnew):
+                            st.assume(z3.Implies(seq_eq(items[-1][0], w), dnew == bv(items[-1][1], 8)))     # the same word has the same distance
+                        elif items and len(items[-1][0]) == len(w):
+                            st.assume(z3.Not(seq_eq(items[-1][0], w)))
+                        items.append((w, dnew))
                 orc.memo[k] = items
                 orc.log.append(("dict", tuple(word), items))
             for w, d in orc.memo[k]:
@@ -2179,7 +2322,9 @@ def make_fixed_assembly(shape):
         fn = prog.find_fn("FixedMethod", "create_dictionary_suggestion")
 
         def call(fm_, cfg_):
-            ret = it.call_function(fn, [Ref([fm_], 0, True), Ref([Opaque("Data")], 0), Ref([cfg_], 0)])
+            if "data" not in ctx:
+                ctx["data"] = mk_assembly_data(prog, st, ctx)
+            ret = it.call_function(fn, [Ref([fm_], 0, True), Ref([ctx["data"]], 0), Ref([cfg_], 0)])
             return ret, [deep_copy(x) for x in fm_field(prog, fm_, "suggestions").items]
 
         def run():
@@ -2363,7 +2508,7 @@ def fixed_list_search(vs):
     keys = probhat_keys()
     data = bundled_data()
     un = {0x2018: "'", 0x2019: "'", 0x201C: '"', 0x201D: '"'}
-    words = ["হাসি", "কুল", "লল", "আমা", "দাদ", "কর", "আগুন", "ঘর", "ক"]
+    words = ["হাসি", "কুল", "লল", "আমা", "দাদ", "কর", "আগুন", "ঘর", "ক", "রাজযক্ষ্ম", "রাজযক"]      # the last two: prefixes of the one word the bundled dictionary lists twice
     wraps = [("", ""), ('"', '"'), ("'", "'"), ("(", ")"), ('"', "")]
     scs = []
     meta = []
